@@ -58,16 +58,29 @@ theorem mem_match_sound (limit n : Nat) (declared : Option Nat) (m : MemInst)
   | some d =>
     unfold matchMem decodeMT at h
     simp only [Bool.and_eq_true, Bool.not_eq_true', decide_eq_false_iff_not] at h
-    obtain ⟨h1, h2⟩ := h
+    obtain ⟨⟨h1, h2⟩, _⟩ := h
     have h3 : Nat.min d limit ≤ d := Nat.min_le_left d limit
     exact ⟨by omega, Or.inr ⟨m.max, d, rfl, rfl, Nat.le_trans (Nat.le_of_not_lt h2) h3⟩⟩
+
+/-- **Shared flags agree** (threads proposal: memory types match only if both are shared or both are not).
+Finding F47: the pinned tree compared the limits only. -/
+theorem mem_match_shared (mt : MT) (m : MemInst) (h : matchMem mt m = true) : mt.shared = m.shared := by
+  unfold matchMem at h
+  simp only [Bool.and_eq_true, beq_iff_eq] at h
+  exact h.2
+
+/-- F47 witness: the as-is matcher accepts a non-shared one-page memory for an import declared shared - the
+compiler then treats the memory's base as fixed and keeps using the old buffer after a grow moved it. -/
+theorem shared_mismatch_accepted_asIs_witness :
+    matchMemAsIs { min := 1, max := 4, shared := true } { pages := 1, max := 4, bytes := [] } = true ∧
+    matchMem { min := 1, max := 4, shared := true } { pages := 1, max := 4, bytes := [] } = false := by decide
 
 /-- what it means for a resolved address to be a spec-compatible provider of an import -/
 def SpecMatch (s : Store) (imp : Import) : Extern → Prop
   | .func a => ∃ (f : FuncInst), s.funcs[a]? = some f ∧ imp.desc = .func f.ft
   | .table a => ∃ (t : TableInst) (tt : TT), s.tables[a]? = some t ∧ imp.desc = .table tt ∧ tt.rt = t.rt ∧
       LimitsMatch t.refs.length t.max tt.min tt.max
-  | .mem a => ∃ (m : MemInst) (mt : MT), s.mems[a]? = some m ∧ imp.desc = .mem mt ∧ mt.min ≤ m.pages ∧ m.max ≤ mt.max
+  | .mem a => ∃ (m : MemInst) (mt : MT), s.mems[a]? = some m ∧ imp.desc = .mem mt ∧ mt.min ≤ m.pages ∧ m.max ≤ mt.max ∧ mt.shared = m.shared
   | .global a => ∃ (g : GlobalInst), s.globals[a]? = some g ∧ imp.desc = .global g.ty
 
 @[reducible] def TablesInv (s : Store) : Prop := ∀ (a : Nat) (t : TableInst), s.tables[a]? = some t → t.min ≤ t.refs.length
@@ -121,8 +134,8 @@ theorem resolveOne_sound (s : Store) (hinv : TablesInv s) (imp : Import) (ext : 
             · rename_i hm
               cases h
               unfold matchMem at hm
-              simp only [Bool.and_eq_true, Bool.not_eq_true', decide_eq_false_iff_not] at hm
-              exact ⟨m, mt, hm', hd, by omega, by omega⟩
+              simp only [Bool.and_eq_true, Bool.not_eq_true', decide_eq_false_iff_not, beq_iff_eq] at hm
+              exact ⟨m, mt, hm', hd, by omega, by omega, hm.2⟩
             · contradiction
           · contradiction
         · contradiction
